@@ -21,7 +21,7 @@ HOSTS = ["Tremblay", "Jupiter", "Fafard", "Ginette", "Bourassa", "Jacquelin", "B
 U, PN = -901, -902      # MPI_UNDEFINED / MPI_PROC_NULL in cases and results (MpiGroup!Undefined, ProcNull)
 _lock = threading.Lock()
 # several JVMs run side by side: keep each of them small (GC and JIT threads), TLC itself runs with one worker
-JVM_ENV = {"JAVA_TOOL_OPTIONS": "-XX:ParallelGCThreads=2 -XX:CICompilerCount=2 -XX:TieredStopAtLevel=4"}
+JVM_ENV = {"JAVA_TOOL_OPTIONS": "-XX:ParallelGCThreads=2 -XX:CICompilerCount=2 -Xss64m"}
 
 
 # ------------------------------------------------------------------------------------------------ TLC as case generator
@@ -88,6 +88,30 @@ def tlc_cases(ctx, module, jobs, timeout=900):
     return cases
 
 
+def pipeline(ctx, module, jobs, process, par=6, timeout=900):
+    """Generate / replay / judge slice by slice: each TLC job's cases are handed to process(cases) as soon as they exist and are
+    dropped afterwards (the expected values of a thorough run do not fit in memory all at once). process must be thread-safe."""
+    def one(job):
+        process(tlc_cases(ctx, module, [job], timeout=timeout))
+        return None
+    vlib.parallel_map(one, jobs, nproc=max(1, min(par, len(jobs))))
+
+
+class Dedup:
+    """thread-safe 'seen' set over canonical hashes"""
+
+    def __init__(self):
+        self.seen = set()
+
+    def fresh(self, key):
+        h = vlib.canon_hash(key)
+        with _lock:
+            if h in self.seen:
+                return False
+            self.seen.add(h)
+            return True
+
+
 def tlc_validate(ctx, module, cfg, env, timeout=600):
     """Run a validation module (implementation results fed back to the specification); returns its printed VERDICT records."""
     e = dict(JVM_ENV)
@@ -134,8 +158,8 @@ def _smpirun(ctx, np, lines, timeout):
     cf = os.path.join(d, "cases.txt")
     with open(cf, "w") as f:
         f.write("\n".join(lines) + "\n")
-    cmd = [vlib.SMPIRUN, "-np", str(np), "-platform", PLATFORM, "-hostfile", hostfile(ctx, np),
-           "--cfg=smpi/host-speed:1f", "--cfg=smpi/privatization:no", "--cfg=smpi/tmpdir:" + d, "--log=root.thres:critical",
+    cmd = [vlib.SMPIRUN, "-no-privatize", "-np", str(np), "-platform", PLATFORM, "-hostfile", hostfile(ctx, np),
+           "--cfg=smpi/host-speed:1f", "--cfg=smpi/tmpdir:" + d, "--log=root.thres:critical",
            "--cfg=debug/stacktrace:none", drv, cf]
     rc, out, err = vlib.sh(cmd, timeout=timeout, env=vlib.sg_env(), cwd=d)
     recs = {}
@@ -226,7 +250,8 @@ def run_all(ctx, cases, tokens_of, np_of, timeout=300, chunk=400, risky=None):
             results.update(run_cases(ctx, np, normal, timeout=timeout, chunk=chunk))
         if solo:
             results.update(run_cases(ctx, np, solo, timeout=timeout, chunk=1))
-    ctx.cov["smpi_wall_s"] = round(ctx.cov.get("smpi_wall_s", 0) + time.time() - t0, 1)
+    with _lock:
+        ctx.cov["smpi_cpu_wall_s"] = round(ctx.cov.get("smpi_cpu_wall_s", 0) + time.time() - t0, 1)
     return results
 
 
@@ -244,15 +269,20 @@ class Reporter:
     def __init__(self, ctx, tokens_of, np_of, judge, per_sig=3):
         self.ctx, self.tokens_of, self.np_of, self.judge, self.per_sig = ctx, tokens_of, np_of, judge, per_sig
         self.found = {}      # signature -> list of (case, what, detail)
+        self.counts = {}
 
     def add(self, case, signature, what, detail=None):
-        self.found.setdefault(signature, []).append((case, what, detail))
+        with _lock:
+            lst = self.found.setdefault(signature, [])
+            self.counts[signature] = self.counts.get(signature, 0) + 1
+            if len(lst) < 12:          # keep a few complete cases per signature, count all
+                lst.append((case, what, detail))
 
     def flush(self):
         ctx = self.ctx
         summary = {}
         for sig, lst in sorted(self.found.items()):
-            summary[sig] = len(lst)
+            summary[sig] = self.counts.get(sig, len(lst))
             confirmed = 0
             for case, what, detail in lst[:max(self.per_sig, 1) * 3]:
                 if confirmed >= self.per_sig:
@@ -265,7 +295,7 @@ class Reporter:
                     continue
                 confirmed += 1
                 inp = {k: v for k, v in case.items() if k != "id"}
-                ctx.violation("%s (%d case(s) with this signature in this run)" % (what, len(lst)),
+                ctx.violation("%s (%d case(s) with this signature in this run)" % (what, self.counts.get(sig, len(lst))),
                               files={"case.json": json.dumps(inp, indent=1),
                                      "case_tokens.txt": "%d %s\n" % (case["id"], self.tokens_of(case)),
                                      "howto.txt": "smpirun -np %d -platform %s -hostfile <hosts> .build/harness/mpi_algebra case_tokens.txt\n"
